@@ -54,7 +54,7 @@ def parseSteps (s : String) : List (Nat × MAct) :=
 
 def showSteps (l : List (Nat × MAct)) : String := ",".intercalate (l.map fun (p, a) => s!"{p}:{a.name}")
 
-def judgeStr (o : Outcome) (bad : Option String) : String :=
+def judgeStr (initialLock : Bool) (o : Outcome) (bad : Option String) : String :=
   match bad with
   | some b => s!"FAIL:unexpected:{b}"
   | none =>
@@ -64,6 +64,8 @@ def judgeStr (o : Outcome) (bad : Option String) : String :=
        else "FAIL:stale-success")
     else if !judgeRecovery o then
       s!"FAIL:recovery:{showResult o.later}"
+    else if !judgeNoOrphanLock initialLock o then
+      "FAIL:orphan-lock"
     else "ok"
 
 def tempCount (s : State) (n : Nat) : Nat := ((s.procs.take n).filter fun pr => pr.temp.isSome).length
@@ -210,7 +212,7 @@ def nontrivial (kv : List (String × String)) : Bool :=
 
 def runCase (id : String) (kv : List (String × String)) (cache : Cache) : String × Cache :=
   let (o, bad) := outcomeOfReal kv
-  let j := judgeStr o bad
+  let j := judgeStr (look kv "lock" == "1") o bad
   let nt := if nontrivial kv then "1" else "0"
   if look kv "kind" == "ctl" then
     let d := fun v => match predictCtl v kv with
